@@ -95,6 +95,8 @@ type analyzer struct {
 	accesses  map[string]*accessRec
 	nAccess   int             // all guarded-struct field accesses seen (in some context)
 	guardedOK map[string]bool // field|fn|kind seen with the guard held (statistics)
+	structs   map[*types.Named]*structInfo
+	fieldInfo map[string]*fieldFacts
 
 	stdCallable    []stdMethod
 	infeasibleUsed map[int]bool
@@ -122,6 +124,7 @@ func newAnalyzer(prog *ssa.Program, cg *callgraph.Graph, cfg *config, repo strin
 		canReach: map[*ssa.Function]bool{}, siteSeen: map[token.Pos]bool{},
 		memo: map[ctxKey]*summary{}, edges: map[[2]int]*edgeWitness{}, unres: map[string]string{},
 		accesses: map[string]*accessRec{}, guardedOK: map[string]bool{}, notes: map[string]int{},
+		structs: map[*types.Named]*structInfo{}, fieldInfo: map[string]*fieldFacts{},
 		leaks: map[string]string{}, knownLeaks: map[string]bool{}, infeasibleUsed: map[int]bool{}}
 }
 
@@ -242,85 +245,206 @@ func fieldClass(owner *types.Named, f *types.Var, xt types.Type, pf *posFmt, pos
 // ---------------------------------------------------------------------------
 // guarded structs
 
-func (a *analyzer) guardedField(xt types.Type, idx int) (field string, spec *guardSpec) {
-	st, owner := structOf(xt)
-	if st == nil || owner == nil || owner.Obj().Pkg() == nil {
-		return "", nil
-	}
-	sname := shortPkg(owner.Obj().Pkg().Path()) + "." + owner.Obj().Name()
-	sp, ok := a.cfg.Guarded[sname]
-	if !ok {
-		return "", nil
-	}
-	fname := st.Field(idx).Name()
-	full := sname + "." + fname
-	if full == sp.Mutex {
-		return "", nil
-	}
-	all := len(sp.Fields) == 1 && sp.Fields[0] == "*"
-	if !all {
-		found := false
-		for _, x := range sp.Fields {
-			if x == fname {
-				found = true
-			}
-		}
-		if !found {
-			return "", nil
-		}
-	}
-	return full, &sp
+// structInfo: a struct type of lal / naza that contains mutex fields
+type structInfo struct {
+	name    string   // pkg.Type
+	mutexes []string // lock classes pkg.Type.field of its sync.Mutex / sync.RWMutex fields
+	spec    *guardSpec
 }
 
+func (a *analyzer) structInfoOf(xt types.Type) *structInfo {
+	st, owner := structOf(xt)
+	if st == nil || owner == nil || owner.Obj().Pkg() == nil {
+		return nil
+	}
+	key := owner.Origin()
+	if si, ok := a.structs[key]; ok {
+		return si
+	}
+	var si *structInfo
+	if tracked(owner.Obj().Pkg().Path()) {
+		sname := shortPkg(owner.Obj().Pkg().Path()) + "." + owner.Obj().Name()
+		var mus []string
+		for i := 0; i < st.NumFields(); i++ {
+			if isSyncType(st.Field(i).Type(), "Mutex", "RWMutex") {
+				mus = append(mus, sname+"."+st.Field(i).Name())
+			}
+		}
+		if len(mus) > 0 {
+			si = &structInfo{name: sname, mutexes: mus}
+			if sp, ok := a.cfg.Guarded[sname]; ok {
+				si.spec = &sp
+			}
+		}
+	}
+	a.structs[key] = si
+	return si
+}
+
+// selfSynchronised: field types whose own operations are synchronised
+func selfSynchronised(t types.Type) bool {
+	if _, ok := t.Underlying().(*types.Chan); ok {
+		return false // the channel operations are, the field holding the channel is not
+	}
+	n := namedOf(t)
+	if n == nil || n.Obj().Pkg() == nil {
+		return false
+	}
+	switch p := n.Obj().Pkg().Path(); {
+	case p == "sync" || p == "sync/atomic":
+		return true
+	case strings.HasSuffix(p, "/nazaatomic"):
+		return true
+	}
+	return false
+}
+
+// guardedField: is field idx of xt a field of a mutex-bearing struct (other
+// than the mutexes themselves and self-synchronised members)?
+// forced = the reviewed configuration lists it as guarded (no inference needed).
+func (a *analyzer) guardedField(xt types.Type, idx int) (field string, si *structInfo, forced bool) {
+	si = a.structInfoOf(xt)
+	if si == nil {
+		return "", nil, false
+	}
+	st, _ := structOf(xt)
+	f := st.Field(idx)
+	if selfSynchronised(f.Type()) {
+		return "", nil, false
+	}
+	// a member struct (by value) that carries its own mutex guards itself
+	if _, isPtr := f.Type().Underlying().(*types.Pointer); !isPtr {
+		if inner := a.structInfoOf(f.Type()); inner != nil {
+			return "", nil, false
+		}
+	}
+	if si.spec != nil {
+		for _, x := range si.spec.Fields {
+			if x == "*" || x == f.Name() {
+				forced = true
+			}
+		}
+	}
+	return si.name + "." + f.Name(), si, forced
+}
+
+// freshObject: the struct is a local allocation of the current function
+// (constructor before the object is published, or a local value)
+func freshObject(v ssa.Value) bool {
+	var base ssa.Value
+	switch x := v.(type) {
+	case *ssa.FieldAddr:
+		base = x.X
+	case *ssa.Field:
+		base = x.X
+	}
+	for {
+		switch b := base.(type) {
+		case *ssa.Alloc:
+			return true
+		case *ssa.FieldAddr:
+			base = b.X
+		case *ssa.Field:
+			base = b.X
+		case *ssa.UnOp:
+			if b.Op != token.MUL {
+				return false
+			}
+			// load of a local struct value
+			if al, ok := b.X.(*ssa.Alloc); ok {
+				_ = al
+				return true
+			}
+			return false
+		default:
+			return false
+		}
+	}
+}
+
+// accessKind classifies one field access:
+//
+//	write - the field, or memory reached through it (map entry, slice element,
+//	        field of the struct / pointee), is stored to
+//	addr  - the address of the field escapes (method with pointer receiver, argument)
+//	read  - anything else
 func accessKind(v ssa.Value) string {
 	fa, ok := v.(*ssa.FieldAddr)
 	if !ok {
 		return "read" // *ssa.Field: a copy of a struct value
 	}
-	refs := fa.Referrers()
-	if refs == nil {
+	w, esc := addrUsage(fa, 0)
+	switch {
+	case w:
+		return "write"
+	case esc:
 		return "addr"
 	}
-	kind := "read"
+	return "read"
+}
+
+func addrUsage(addr ssa.Value, depth int) (written, escapes bool) {
+	refs := addr.Referrers()
+	if refs == nil {
+		return false, true
+	}
 	for _, r := range *refs {
 		switch x := r.(type) {
 		case *ssa.Store:
-			if x.Addr == v {
-				return "write"
+			if x.Addr == addr {
+				written = true
+			} else {
+				escapes = true
 			}
-			return "addr" // the address itself is stored somewhere
 		case *ssa.UnOp:
 			if x.Op != token.MUL {
-				return "addr"
+				escapes = true
+				continue
 			}
-			// a loaded map that is updated / deleted from counts as a write of the field
+			if depth >= 3 {
+				continue
+			}
+			// the loaded value: a map / slice / pointer that is written through
 			if lr := x.Referrers(); lr != nil {
 				for _, r2 := range *lr {
 					switch y := r2.(type) {
 					case *ssa.MapUpdate:
 						if y.Map == x {
-							return "write"
+							written = true
 						}
 					case *ssa.Call:
 						if b, ok := y.Call.Value.(*ssa.Builtin); ok && b.Name() == "delete" && len(y.Call.Args) > 0 && y.Call.Args[0] == x {
-							return "write"
+							written = true
+						}
+					case *ssa.IndexAddr:
+						if y.X == x {
+							w, _ := addrUsage(y, depth+1)
+							written = written || w
+						}
+					case *ssa.FieldAddr:
+						if y.X == x {
+							w, _ := addrUsage(y, depth+1)
+							written = written || w
 						}
 					}
 				}
 			}
+		case *ssa.FieldAddr:
+			if x.X == addr {
+				w, e := addrUsage(x, depth+1)
+				written, escapes = written || w, escapes || e
+			}
+		case *ssa.IndexAddr:
+			if x.X == addr {
+				w, e := addrUsage(x, depth+1)
+				written, escapes = written || w, escapes || e
+			}
 		case *ssa.DebugRef:
 		default:
-			// passed to a call (method with pointer receiver), nested FieldAddr / IndexAddr, ...
-			if _, isFA := r.(*ssa.FieldAddr); isFA {
-				kind = "addr"
-			} else if _, isIA := r.(*ssa.IndexAddr); isIA {
-				kind = "addr"
-			} else {
-				kind = "addr"
-			}
+			escapes = true
 		}
 	}
-	return kind
+	return
 }
 
 // ---------------------------------------------------------------------------
@@ -377,11 +501,11 @@ func (a *analyzer) prepare() {
 						interesting[fn] = true // so that the walk reaches it and reports it
 					}
 				case *ssa.FieldAddr:
-					if f, _ := a.guardedField(x.X.Type(), x.Field); f != "" {
+					if f, _, _ := a.guardedField(x.X.Type(), x.Field); f != "" {
 						interesting[fn] = true
 					}
 				case *ssa.Field:
-					if f, _ := a.guardedField(x.X.Type(), x.Field); f != "" {
+					if f, _, _ := a.guardedField(x.X.Type(), x.Field); f != "" {
 						interesting[fn] = true
 					}
 				}
@@ -694,15 +818,40 @@ func (a *analyzer) step(fn *ssa.Function, ins ssa.Instruction, cur []state, virt
 }
 
 func (a *analyzer) access(fn *ssa.Function, v ssa.Value, xt types.Type, idx int, pos token.Pos, cur []state, virt bool, chain *chainNode) {
-	field, spec := a.guardedField(xt, idx)
+	field, si, forced := a.guardedField(xt, idx)
 	if field == "" {
 		return
 	}
 	kind := accessKind(v)
 	k := field + "|" + fn.String() + "|" + kind
-	guard, hasGuard := a.classIDs[spec.Mutex]
+	fi := a.fieldInfo[field]
+	if fi == nil {
+		fi = &fieldFacts{owner: si.name, forced: forced}
+		a.fieldInfo[field] = fi
+	}
+	fresh := freshObject(v)
 	for _, s := range cur {
-		if virt || (hasGuard && holds(s.held, guard)) {
+		if virt || fresh {
+			a.guardedOK[k] = true
+			continue // constructor / object not yet published
+		}
+		if kind != "read" && a.record {
+			fi.written = true
+			if fi.writtenAt == "" {
+				fi.writtenAt = kind + " in " + shortName(fn.String()) + " at " + a.pf.str(pos)
+			}
+		}
+		holdsGuard := false
+		for _, m := range si.mutexes {
+			if id, ok := a.classIDs[m]; ok && holds(s.held, id) {
+				holdsGuard = true
+				if a.record { // facts are taken from walks that start at real thread entry points
+					fi.heldSeen = true
+					fi.guard = m
+				}
+			}
+		}
+		if holdsGuard {
 			a.guardedOK[k] = true
 			continue
 		}
@@ -714,6 +863,19 @@ func (a *analyzer) access(fn *ssa.Function, v ssa.Value, xt types.Type, idx int,
 		}
 	}
 }
+
+// fieldFacts: what the walk learnt about one field of a mutex-bearing struct
+type fieldFacts struct {
+	owner     string
+	guard     string // a mutex of the struct seen held at an access
+	forced    bool   // listed in the configuration
+	heldSeen  bool   // accessed at least once with a mutex of its struct held
+	written   bool   // written (or its address taken) outside constructors
+	writtenAt string // one such site
+}
+
+// guardedInferred: the field is treated as guarded by the mutex of its struct
+func (f *fieldFacts) guardedInferred() bool { return f.forced || (f.heldSeen && f.written) }
 
 func (a *analyzer) acquire(fn *ssa.Function, class int, pos token.Pos, s state, chain *chainNode) state {
 	for _, h := range s.held {
@@ -1036,6 +1198,32 @@ func (a *analyzer) computeStdCallable() {
 // ---------------------------------------------------------------------------
 // roots
 
+func (a *analyzer) effectiveCallers(fn *ssa.Function, depth int, seen map[*ssa.Function]bool) []*ssa.Function {
+	var out []*ssa.Function
+	node := a.cg.Nodes[fn]
+	if node == nil || seen[fn] {
+		return nil
+	}
+	seen[fn] = true
+	for _, e := range node.In {
+		c := e.Caller.Func
+		if c == nil {
+			continue
+		}
+		if c.Synthetic != "" && depth < 4 {
+			// a wrapper nobody calls is itself an escaping function value: keep it as an (untracked-looking) caller
+			cc := a.effectiveCallers(c, depth+1, seen)
+			if len(cc) == 0 {
+				continue
+			}
+			out = append(out, cc...)
+			continue
+		}
+		out = append(out, c)
+	}
+	return out
+}
+
 func (a *analyzer) run() {
 	a.prepare()
 	all := ssautil.AllFunctions(a.prog)
@@ -1091,19 +1279,21 @@ func (a *analyzer) run() {
 				}
 			}
 		}
-		node := a.cg.Nodes[fn]
-		if node == nil || len(node.In) == 0 {
+		// callers, looking through synthetic wrappers (bound-method closures, thunks):
+		// h.serveHls passed to net/http is called as serveHls$bound by the standard library
+		callers := a.effectiveCallers(fn, 0, map[*ssa.Function]bool{})
+		if len(callers) == 0 {
 			if exported {
 				return true, "exported"
 			}
 			return true, "nocaller"
 		}
 		trackedCaller := false
-		for _, e := range node.In {
-			if !tracked(fnPkgPath(e.Caller.Func)) {
+		for _, c := range callers {
+			if !tracked(fnPkgPath(c)) {
 				return true, "callback"
 			}
-			if e.Caller.Func != fn {
+			if c != fn {
 				trackedCaller = true
 			}
 		}
